@@ -92,3 +92,10 @@ Definition check_1207 (fs : list field) : verdict :=
     if bytes_eqb reused fresh then VOk else VBad 8 [FZ variant; FB fresh]
   | _ => VBad 99 []
   end.
+
+(* 1208: sequential retention. fields: kind, calls, all-kept-results-intact flag *)
+Definition check_1208 (fs : list field) : verdict :=
+  match fs with
+  | [FZ kind; FZ calls; FZ good] => if calls <=? 0 then VSkip else expect 4 (good =? 1) [FZ kind]
+  | _ => VBad 99 []
+  end.
